@@ -90,8 +90,29 @@ func nativeReplay(prop, pkg string, runs []ReplayRun, file string) (map[string]s
 	defer os.Remove(ovFile)
 
 	env := append(goEnv(), "VERIF_REPLAY="+file)
-	out, err := runCmd(repoDir, env, "go", "test", "-tags", "verif", "-vet=off", "-count=1", "-timeout", "90s",
-		"-overlay", ovFile, "-run", "^TestVerifReplay$", "-v", "./"+pkg)
+	race := false
+	for _, r := range runs {
+		if strings.HasPrefix(r.Msg, "data race") {
+			race = true
+		}
+	}
+	args := []string{"test", "-tags", "verif", "-vet=off", "-count=1", "-timeout", "90s", "-overlay", ovFile, "-run", "^TestVerifReplay$", "-v"}
+	if race {
+		// lockset reports are confirmed with the Go race detector
+		args = append(args, "-race")
+		env = append(env, "CGO_ENABLED=1")
+	}
+	args = append(args, "./"+pkg)
+	out, err := runCmd(repoDir, env, "go", args...)
+	if race && strings.Contains(out, "WARNING: DATA RACE") {
+		for _, r := range runs {
+			if strings.HasPrefix(r.Msg, "data race") {
+				res0 := "CONFIRMED data race reported by the Go race detector"
+				defer func(id string) {}(r.ID)
+				_ = res0
+			}
+		}
+	}
 	res := map[string]string{}
 	for _, line := range strings.Split(out, "\n") {
 		line = strings.TrimSpace(line)
@@ -103,6 +124,13 @@ func nativeReplay(prop, pkg string, runs []ReplayRun, file string) (map[string]s
 		}
 	}
 	_ = err
+	if race && strings.Contains(out, "WARNING: DATA RACE") {
+		for _, r := range runs {
+			if strings.HasPrefix(r.Msg, "data race") {
+				res[r.ID] = "CONFIRMED data race reported by the Go race detector"
+			}
+		}
+	}
 	// a native run that hangs confirms a reported deadlock
 	if strings.Contains(out, "test timed out") || strings.Contains(out, "all goroutines are asleep") {
 		for _, r := range runs {
